@@ -131,7 +131,7 @@ func init() {
 		Plan: func(tier string) []Batch {
 			b := same(n(tier, 4, 8), Batch{Mode: "utc-deep", Timeout: 20 * time.Minute})
 			b = append(b, Batch{Mode: "tz", Race: true, Env: []string{"TZ=Europe/London"}, Timeout: 20 * time.Minute, Procs: 8}, Batch{Mode: "tz", Env: []string{"TZ=America/Santiago"}, Timeout: 20 * time.Minute, Procs: 8})
-			return append(b, zoneBatches(n(tier, 36, 0), "tz", 15*time.Minute)...)
+			return append(b, zoneBatches(n(tier, 38, 0), "tz", 15*time.Minute)...)
 		}}
 }
 
